@@ -28,7 +28,10 @@ CHECKS = {
         'exactly as the precedence levels dictate, that unary operators bind tighter, and that full parenthesisation is neutral; every '
         'expression and its fully parenthesised form are evaluated on the real code over all assignments of pool values to x, y, z; '
         'operator triples (four operands) and, from GenChain, runs of up to 65 (thorough 257) operands of one operator or two alternating '
-        'operators of a level are compared with their left-nested parenthesised text, also on documents where grouping changes rounding.',
+        'operators of a level are compared with their left-nested parenthesised text, also on documents where grouping changes rounding. '
+        'GenOpForms repeats the operator pairs with one operand at a time written as a call, parenthesised field, @.x, $.x, indexed multi-select, '
+        'selected hash, quoted identifier, ... against the text with the grouping of the precedence levels written out (FormsGroupByTable); '
+        'expressions of the type-directed recorder are validated by TLC.',
    note='Trusts TLC and the level table written from the standard; documents are bounded to the value pool.'),
  'C12': dict(
    level='model_checking', ref='DESIGN.md 6 (C12), 3.4',
